@@ -310,7 +310,11 @@ def particle_number_measurement(
         probabilities = state.fock_probabilities_map
 
         return [
-            Branch(state=None, outcome=outcome, frequency=probability)
+            Branch(
+                state=None,
+                outcome=tuple(outcome[mode] for mode in modes),
+                frequency=probability,
+            )
             for outcome, probability in probabilities.items()
         ]
 
@@ -394,7 +398,11 @@ def particle_number_measurement(
         )
 
     branches = [
-        Branch(state=None, outcome=outcome, frequency=Fraction(multiplicity, shots))
+        Branch(
+            state=None,
+            outcome=tuple(outcome[mode] for mode in modes),
+            frequency=Fraction(multiplicity, shots),
+        )
         for outcome, multiplicity in binned_samples.items()
     ]
 
